@@ -68,6 +68,10 @@ def std_patch(*modnames, extra=None, sp=True, flt=True):
             d["sp"] = A.SPFacade()
         if flt:
             d["float"] = C.sym_float
+        # numba kernels are executed through their Python source (`.py_func`); the compiled code is outside every claim
+        for k, v in list(mod.__dict__.items()):
+            if hasattr(v, "py_func") and callable(getattr(v, "py_func", None)):
+                d[k] = v.py_func
         spec[m] = d
     for m, d in (extra or {}).items():
         spec.setdefault(m, {}).update(d)
